@@ -23,6 +23,8 @@ func init() {
 		Rule{ID: "R06b", Doc: "TCP leg: who may release a connection (shared with C06)", Floor: 2, Run: r06b},
 		Rule{ID: "R05d", Doc: "the UDP leg stamps its wire id into a private copy: the TCP retry sends the original query (shared with C05)", Floor: 5, AllVariants: true, Run: r05d},
 		Rule{ID: "R20d", Doc: "a transport neither keeps nor modifies the caller's query (shared with C20)", Floor: 5, AllVariants: true, Run: r20d},
+		Rule{ID: "R02d", Doc: "the TC bit is decoded from its RFC 1035 position (the fallback test reads it; shared with C02)", Floor: 10, AllVariants: true, Run: r02d},
+		Rule{ID: "R02g", Doc: "the decoder does not reject a well-formed (e.g. header-only, TC=1) reply: short-buffer guards are exact (shared with C02)", Floor: 8, Run: r02g},
 	)
 	reg("C05", "Structural necessary conditions of reply demultiplexing on pipelined connections, decided for all paths: "+
 		"(R05a) wire IDs: nextQid is written only by addQueueC, only as nextQid+1, under the connection mutex, and the uint16 conversion is dominated by a guard proving nextQid <= 65535 (no wrap => IDs pairwise distinct for the connection's life); "+
@@ -36,6 +38,8 @@ func init() {
 		Rule{ID: "R05d", Doc: "ID rewrite on a private copy / restore", Floor: 5, AllVariants: true, Run: r05d},
 		Rule{ID: "R05e", Doc: "retire, never wrap", Floor: 2, AllVariants: true, Run: r05e},
 		Rule{ID: "R01f", Doc: "narrowing conversions in the transports (query id, length prefix) are range-proved", Floor: 2, Run: r01fTransport},
+		Rule{ID: "R01g", Doc: "the decoder is given exactly the received bytes, never the rest of a recycled buffer (shared with C01)", Floor: 8, AllVariants: true, Run: r01g},
+		Rule{ID: "R05g", Doc: "id-exhaustion thresholds of addQueueC, Status and deleteQueueC agree", Floor: 4, AllVariants: true, Run: r05g},
 	)
 	reg("C06", "Structural necessary conditions of clean reuse of one-at-a-time connections, decided for all paths: "+
 		"(R06a) the idle set is inserted only by releaseConn, only where its error parameter is nil and the transport is open, under the transport mutex, and removed only by getIdleConn before the connection is handed out; "+
@@ -876,4 +880,89 @@ func truthConds(v ssa.Value) []string {
 // condListFull lists dominating conditions of b including the branch that leads into b from its idom chain.
 func condListFull(b *ssa.BasicBlock) string {
 	return condList(b)
+}
+
+// R05g: the three places that decide when a pipelined connection is worn out agree. addQueueC refuses a new id when
+// G(nextQid) holds; Status reports Available when A(nextQid, reserved) holds; deleteQueueC retires the connection when
+// G'(nextQid) holds and nobody waits. Required: G and G' are the same condition (a connection that refuses every id is
+// retired), and Available (with reserved >= 0) excludes G (the pool never hands out a connection that must refuse) —
+// otherwise every exchange on that connection fails until it idles out.
+func r05g(c *core.Ctx) {
+	add := c.Anchor(tpkg, "(*pipelineConn).addQueueC")
+	st := c.Anchor(tpkg, "(*pipelineConn).Status")
+	del := c.Anchor(tpkg, "(*pipelineConn).deleteQueueC")
+	if add == nil || st == nil || del == nil {
+		return
+	}
+	// linear "holds" form of a comparison over the connection's fields
+	holds := func(fn *ssa.Function, v ssa.Value, want bool) (core.Lin, bool) {
+		cm, ok := core.CmpOf(v)
+		if !ok || cm.Op != "<" {
+			return core.Lin{}, false
+		}
+		z := core.NewZEnv(fn)
+		x, y := z.Of(cm.XV), z.Of(cm.YV)
+		truth := !cm.Neg
+		if truth == want {
+			return y.Sub(x).AddC(-1), true // x < y
+		}
+		return x.Sub(y), true // !(x < y)
+	}
+	// G: the condition under which addQueueC returns errPipelineConnEoL
+	var g core.Lin
+	okG := false
+	for _, ret := range returnsOf(add) {
+		rs := core.ReturnResults(ret)
+		if strings.Contains(core.Expr(rs[len(rs)-1]), "errPipelineConnEoL") {
+			for _, cnd := range core.CondsAt(ret.Block()) {
+				if l, ok := holds(add, cnd.Cond, cnd.Val); ok && strings.Contains(l.String(), "nextQid") {
+					g, okG = l, true
+				}
+			}
+		}
+	}
+	c.Check(okG, "eol-refusal-condition", add.Pos(), add, "addQueueC refuses new ids under a linear condition on nextQid", "")
+	if !okG {
+		return
+	}
+	// G': the nextQid conjunct of deleteQueueC's retirement test
+	okSame, descD := false, ""
+	core.EachInstr(del, func(_ *ssa.BasicBlock, _ int, in ssa.Instruction) {
+		if bo, ok := in.(*ssa.BinOp); ok {
+			if l, ok := holds(del, bo, true); ok && strings.Contains(l.String(), "nextQid") {
+				descD = l.String()
+				if l.Equal(g) {
+					okSame = true
+				}
+			}
+		}
+	})
+	c.Check(okSame, "eol-retire-agrees", del.Pos(), del, "deleteQueueC retires the connection under the same nextQid condition under which addQueueC refuses ids", "refuse: "+g.String()+" >= 0; retire: "+descD+" >= 0")
+	// A: Status().Available
+	var a core.Lin
+	okA := false
+	core.EachInstr(st, func(_ *ssa.BasicBlock, _ int, in ssa.Instruction) {
+		if s, ok := in.(*ssa.Store); ok {
+			if fa, ok := s.Addr.(*ssa.FieldAddr); ok && core.FieldAddrRef(fa).Name == "Available" {
+				if l, ok := holds(st, s.Val, true); ok {
+					a, okA = l, true
+				}
+			}
+		}
+	})
+	c.Check(okA, "available-condition", st.Pos(), st, "Status().Available is a linear condition on nextQid and reserved", "")
+	if !okA {
+		return
+	}
+	// Available ∧ reserved >= 0 ∧ G infeasible: their sum (with reserved eliminated by its sign) is a negative constant
+	sum := a.Add(g)
+	for s, k := range sum.T {
+		if strings.HasSuffix(s, ".reserved") && k < 0 {
+			// + (-k) * reserved, reserved >= 0
+			sum = sum.Add(core.Lin{T: map[string]int64{s: -k}})
+		}
+	}
+	k, isC := sum.IsConst()
+	c.Check(isC && k < 0, "available-excludes-refusal", st.Pos(), st, "a connection reported Available never refuses the next id (Available and the refusal condition are contradictory for reserved >= 0)",
+		fmt.Sprintf("available: %s >= 0; refuse: %s >= 0; sum: %s", a.String(), g.String(), sum.String()))
 }
